@@ -55,18 +55,18 @@ func NewUntrustedMessageHandlers(ctx context.Context, trustedState *state.State,
 	memPool *state.MemPool, txChannel *TxChannel,
 	isRelevant IsRelevant, address string) map[string]MessageHandler {
 
-	blockHandler := NewBlockHandler(trustedState, nil)
 	txHandler := NewUntrustedTXHandler(untrustedState, txChannel)
 
+	// Blocks are never requested from untrusted nodes, so there is no block handler. A block from
+	// an untrusted node must not be fed into the trusted node's block requests.
 	return map[string]MessageHandler{
 		wire.CmdPing:     NewPingHandler(),
 		wire.CmdVersion:  NewUntrustedVersionHandler(untrustedState, address),
 		wire.CmdAddr:     NewAddressHandler(peers),
 		wire.CmdInv:      NewUntrustedInvHandler(untrustedState, tracker, memPool),
 		wire.CmdTx:       txHandler,
-		wire.CmdBlock:    blockHandler,
 		wire.CmdHeaders:  NewUntrustedHeadersHandler(untrustedState, peers, address, blockRepo),
 		wire.CmdReject:   NewRejectHandler(),
-		wire.CmdExtended: NewExtendedHandler(blockHandler, txHandler),
+		wire.CmdExtended: NewExtendedHandler(nil, txHandler),
 	}
 }
